@@ -1564,7 +1564,9 @@ class Compiler:
         yield EmitText(node.prefix + node.name + node.suffix)
 
     def visit_Attribute(self, node):
-        attr_format = (node.space + node.name + node.eq +
+        # the parts of the tag are literal text in the format string
+        prefix = (node.space + node.name).replace('%', '%%')
+        attr_format = (prefix + node.eq.replace('%', '%%') +
                        node.quote + "%s" + node.quote)
 
         filter_args = list(map(self._engine.cache.get, node.filters))
@@ -1610,8 +1612,7 @@ class Compiler:
             return body + template(
                 "if CONDITION: __append(FORMAT % TARGET if TARGET else BARE)",
                 FORMAT=ast.Constant(
-                    node.space + node.name + "=" +
-                    node.quote + "%s" + node.quote),
+                    prefix + "=" + node.quote + "%s" + node.quote),
                 BARE=ast.Constant(node.space + node.name),
                 TARGET=target,
                 CONDITION=condition,
